@@ -146,6 +146,15 @@ fn seg(s: &syn::PathSegment) -> Option<String> {
             if a.colon2_token.is_some() || a.args.is_empty() || a.args.trailing_punct() {
                 return None;
             }
+            // syn prints lifetime arguments first: only lists written that way are inside the fragment
+            let mut non_lt = false;
+            for x in &a.args {
+                match x {
+                    syn::GenericArgument::Lifetime(_) if non_lt => return None,
+                    syn::GenericArgument::Lifetime(_) => {}
+                    _ => non_lt = true,
+                }
+            }
             let args: Option<Vec<String>> = a.args.iter().map(garg).collect();
             Some(format!("(seg {id} {})", args?.join(" ")))
         }
@@ -603,17 +612,26 @@ fn helper_body(name: &str, a: &syn::Attribute) -> Option<String> {
                     Some(format!("(list (debugargs {} {} {}))", b(tr), b(ig), opt(bd, Some)?))
                 }
                 "default" => {
-                    let (mut val, mut bd) = (None, None);
-                    for x in al.0 {
+                    // the first argument is always the (required, unnamed) value — also when it is spelled like a
+                    // named one: `#[default(bound(T))]` has the value `bound(T)`
+                    let mut bd = None;
+                    let mut it = al.0.into_iter();
+                    let val = match it.next() {
+                        None => None,
+                        Some(Arg::Unnamed(ts)) => Some(ts),
+                        Some(Arg::Flag(m)) => Some(syn::Ident::new_raw_or(&m).to_token_stream()),
+                        Some(Arg::List(m, ts)) => {
+                            let id = syn::Ident::new_raw_or(&m);
+                            Some(quote::quote!(#id(#ts)))
+                        }
+                        Some(Arg::NameValue(m, ts)) => {
+                            let id = syn::Ident::new_raw_or(&m);
+                            Some(quote::quote!(#id = #ts))
+                        }
+                    };
+                    for x in it {
                         match x {
                             Arg::List(m, ts) if m == "bound" && bd.is_none() => bd = Some(bound_list(ts)?),
-                            Arg::Unnamed(ts) if val.is_none() => val = Some(ts),
-                            // a bare identifier or a call is an expression, too
-                            Arg::Flag(m) if val.is_none() => val = Some(syn::Ident::new_raw_or(&m).to_token_stream()),
-                            Arg::List(m, ts) if val.is_none() => {
-                                let id = syn::Ident::new_raw_or(&m);
-                                val = Some(quote::quote!(#id(#ts)))
-                            }
                             _ => return None,
                         }
                     }
@@ -792,6 +810,7 @@ pub fn item(ts: TokenStream) -> Option<String> {
                     {
                         format!("(output {})", ty(&t.ty)?)
                     }
+                    syn::ImplItem::Type(t) if t.ident == "Output" => return None, // an `Output` in a spelling the model does not read
                     other => format!("(other {})", toks(other.to_token_stream())),
                 });
             }
